@@ -555,6 +555,34 @@ def dist_add(dist, recipe, st):
     inc("tz", unhex(tz[0])[3:].decode() if tz else "unset")
 
 
+def gen_trees(text):
+    return {m.group(1): " ".join(m.group(2).split()) for m in re.finditer(r'de_name := "([^"]*)";.*?de_tree :=\n(.*?) \|\}', text, re.S)}
+
+
+def diagnose(tsv, gen):
+    """what the translator read differently from the reference (the last tree on which every obligation held): names the entry / constant
+    and, for a body that was not understood, the statement kind the symbolic executor stopped at"""
+    ref = os.path.join(VERIF, "reference")
+    out = []
+    try:
+        rt, gt = gen_trees(open(os.path.join(ref, "gen", "Gen_Ds.v")).read()), gen_trees(gen)
+        for n in sorted(set(rt) | set(gt)):
+            if rt.get(n) != gt.get(n):
+                why = re.findall(r'\((?:TOther|EUnknown) "([^"]*)"\)', gt.get(n, ""))
+                unk = sorted(set(re.findall(r'F_other "([^"]*)"', gt.get(n, ""))) - set(re.findall(r'F_other "([^"]*)"', rt.get(n, ""))))
+                out.append("tree of '%s' differs from the reference%s%s" % (n, (" (not understood: %s)" % ", ".join(sorted(set(why)))) if why else "",
+                                                                           (" (calls outside the modelled set: %s)" % ", ".join(unk)) if unk else ""))
+        rc = dict(l.split("\t", 1) for l in open(os.path.join(ref, "consts_dstruth.tsv")).read().splitlines() if "\t" in l)
+        for l in tsv.splitlines():
+            if "\t" in l:
+                k, v = l.split("\t", 1)
+                if k in rc and rc[k] != v:
+                    out.append("constant %s read as %s (reference %s)" % (k, v[:40], rc[k][:40]))
+    except Exception as e:
+        out.append("no diagnosis: %s" % e)
+    return "; ".join(out[:12]) or "no difference from the reference found"
+
+
 def check(run):
     if os.geteuid() != 0:
         raise CheckError("C12 constructs process states and needs root")
@@ -564,7 +592,10 @@ def check(run):
     # the model driver reads the constants of both areas
     t1 = open(os.path.join(run.scratch, "consts_expand.tsv")).read()
     open(os.path.join(run.scratch, "consts_dstruth.tsv"), "a").write("".join(l + "\n" for l in t1.splitlines() if l.startswith("cmdline_")))
+    regenerated_tsv = open(os.path.join(run.scratch, "consts_dstruth.tsv")).read()
+    regenerated_gen = open(os.path.join(run.gen, "Gen_Ds.v")).read()
     ok, failed, log = run.coq_props(["Properties_C12.v"])
+    diagnosis = "" if ok else diagnose(regenerated_tsv, regenerated_gen)
     coqchk = "not run (quick tier)"
     if ok and run.tier == "thorough":
         from vlib.core import sh, THEORIES
@@ -608,7 +639,8 @@ def check(run):
     known = [k for k in run.load_known() if k[0] == run.prop]
     fresh = [v for v in run.violations if not any(re.fullmatch(k[1], v["sig"]) for k in known)]
     if not ok and not fresh:
-        run.violation("proof:%s" % failed, "proof", "proof obligation no longer checks: %s\n%s" % (failed, log[-1500:]), {"theorem": failed, "coq_log": log[-3000:]})
+        run.violation("proof:%s" % failed, "proof", "proof obligation no longer checks: %s; translator diagnosis: %s\n%s" % (failed, diagnosis, log[-1500:]),
+                      {"theorem": failed, "diagnosis": diagnosis, "coq_log": log[-3000:]})
     distinct = set()
     for p in parsed:
         if p["status"] == "ok":
